@@ -365,6 +365,16 @@ def project(job, raw):
             keep = idx + 1
             break
         E2 = max([E] + xs)
+        # exact arithmetic adds at most log2(PD*GD) fractional bits per application of the backup (per evaluation
+        # step in PI; per batch in a Gauss-Seidel sweep).  More than that cannot be a correctly computed value:
+        # the event is kept and marked not representable (the model rejects it) instead of being cut off as
+        # "out of the model's integer range".
+        steps = max(1, len(ev.get("evals", [])))
+        chain = max(1, int(raw["layout"]["nb"])) if kind == "SAVI" else 1
+        if ev["e"] != "solve_begin" and E2 > E + steps * chain * max(1, (den - 1).bit_length()) + 2:
+            inexact_at = idx
+            keep = idx + 1
+            break
         mags = [abs(float(v)) for v in ev["values"]] + [abs(raw["gain0"])]
         if "conv" in ev and ev["conv"] != float("inf"):
             mags.append(abs(ev["conv"]))
